@@ -238,6 +238,10 @@ def cropped_row_slices(rep, prog, rule):
             p1 = ("param", 1, f.local_name(1))
             mapping = {("field", p1, i): cexp for i, cexp in enumerate(cap)}
             lo, hi = subst(rng[4][0], mapping), subst(rng[4][1], mapping)
+            # bounds that travel in a helper's struct (`ColumnSpan::of(&crop_box)`): the helper is
+            # inlined and the field projected
+            from .validators import resolve_helpers
+            lo, hi = resolve_helpers(prog, lo), resolve_helpers(prog, hi)
             lo_s, hi_s = strip_all(lo), strip_widen(hi)
 
             def fieldname(e):
@@ -257,6 +261,9 @@ def cropped_row_slices(rep, prog, rule):
                     continue
             if okk:
                 rep.ok(rule, key, c.at, "row[%s .. %s]" % (fmt(lo)[:60], fmt(hi)[:90]))
+            elif _opaque_call(prog, lo) or _opaque_call(prog, hi):
+                rep.unk(rule, key, c.at, "row[%s .. %s]: the bounds come from a helper that was not "
+                        "resolved to an expression" % (fmt(lo)[:60], fmt(hi)[:60]))
             else:
                 rep.bad(rule, key, c.at, "unchecked column slice is row[%s .. %s], expected "
                         "[left .. left + width] of the view's own fields" % (fmt(lo)[:80],
@@ -572,6 +579,16 @@ def _zero_witness(x, facts, ctx=None):
     except _UnknownNode:
         return None
     return None
+
+
+def _opaque_call(prog, e):
+    if not isinstance(e, tuple) or not e:
+        return False
+    if e[0] in ("call", "callat"):
+        res = e[4] if e[0] == "callat" else e[3]
+        if isinstance(res, str) and res in prog.fns:
+            return True
+    return any(_opaque_call(prog, x) for x in e if isinstance(x, tuple))
 
 
 def _min_operands(e):
